@@ -6,7 +6,7 @@ from typing import Optional
 
 from vf.cond import cond
 
-from .common import STUB_LIMITED_IO, DictLoader, Environment, LiquidError, drive, in_alpha, outcome, untraced
+from .common import STUB_LIMITED_IO, DictLoader, concrete_int, Environment, LiquidError, drive, in_alpha, outcome, untraced
 
 from liquid2.exceptions import (  # noqa: E402
     ContextDepthError,
@@ -24,7 +24,7 @@ EXPLANATION = (
     "limit-1/limit/limit+1 boundary is quantified rather than sampled."
 )
 OUTSIDE = [
-    "local_namespace_limit measured by sys.getsizeof (C call; only the carry arithmetic is checked with len() as measure)",
+    "local_namespace_limit measured by the default sys.getsizeof (C call): the limit logic is checked through the documented get_size_of_locals override with len() as measure",
     "default depth limit 30 against CPython's own recursion limit",
     "loop nests deeper than 3, more than 3 templates in a cycle",
 ]
@@ -241,6 +241,119 @@ def d_loop_limit(i: int, n: int, m: int, L: int) -> bool:
     finally:
         ENV_LOOP.loop_iteration_limit = 10**9
     return ok == (need <= L)
+
+
+# --------------------------------------------------------------------------------------------
+# D-C06-namespace: local_namespace_limit with the documented extension point (get_size_of_locals)
+# --------------------------------------------------------------------------------------------
+from io import StringIO as _StringIO  # noqa: E402
+
+from liquid2 import RenderContext  # noqa: E402
+from liquid2.exceptions import LocalNamespaceLimitError  # noqa: E402
+from liquid2.utils import ReadOnlyChainMap as _Chain  # noqa: E402
+from liquid2.context import builtin as _builtin  # noqa: E402
+
+
+def _measure(v: object) -> int:
+    return len(v) if isinstance(v, str) else 1
+
+
+class _RecLocals(dict):
+    """The local namespace; records the largest score it ever had (independent observation point)."""
+
+    PEAK = [0]
+
+    def __init__(self, carry: int):
+        super().__init__()
+        self.carry = carry
+
+    def __setitem__(self, key, val):  # type: ignore[no-untyped-def]
+        dict.__setitem__(self, key, val)
+        now = sum(_measure(v) for v in self.values()) + self.carry
+        if now > _RecLocals.PEAK[0]:
+            _RecLocals.PEAK[0] = now
+
+
+class SizeCtx(RenderContext):
+    """get_size_of_locals overridden as the documentation describes: characters of strings, 1 per other value, plus the carry."""
+
+    __slots__ = ()
+
+    def __init__(self, template, **kw):  # type: ignore[no-untyped-def]
+        super().__init__(template, **kw)
+        self.locals = _RecLocals(self.local_namespace_carry)
+        self.scope = _Chain(self.locals, self.globals, _builtin, self.counters)
+
+    def get_size_of_locals(self) -> int:
+        if not self.env.local_namespace_limit:
+            return 0
+        return sum(_measure(v) for v in self.locals.values()) + self.local_namespace_carry
+
+
+class _NsEnv(Environment):
+    local_namespace_limit = None
+
+
+ENV_NS = _NsEnv(loader=DictLoader({
+    "p": "{% assign w = s %}{% assign w = w | append: s | append: s %}<{{ w }}>",
+    "q": "{% assign w = 'b' %}{% render 'p', s: s %}",
+}))
+NS_SRC = [
+    "{% assign v = s %}{% assign v = v | append: s %}{{ v }}",
+    "{% assign v = 'a' %}{% for i in (1..n) %}{% assign v = v | append: s %}{% endfor %}{{ v | size }}",
+    "{% capture c %}{{ s }}{% endcapture %}{% capture c %}{{ c }}{{ s }}{{ s }}{% endcapture %}{{ c }}",
+    "{% assign v = s %}{% render 'p', s: s %}{{ v }}",
+    "{% liquid assign a = s\n assign b = a | append: a\n assign a = b | append: b\n%}{{ a }}",
+    "{% macro m, t %}{% assign q = t %}{% assign q = q | append: t %}{{ q }}{% endmacro %}{% assign v = s %}{% call m, s %}{% call m, v %}",
+    "{% assign v = s %}{% for i in (1..n) %}{% render 'q', s: s %}{% endfor %}{% assign v = 1 %}{% assign u = s %}",
+    "{% assign v = s %}{% if n > 1 %}{% assign v = s | append: s | append: s %}{% else %}{% assign z = s %}{% endif %}{{ v }}{{ z }}",
+]
+NS_T = [ENV_NS.from_string(src) for src in NS_SRC]
+for _t in NS_T:
+    try:
+        _t.render(s="a", n=1)
+    except Exception:  # noqa: BLE001
+        pass
+
+
+def _ns_run(i: int, s: str, n: int, limit):  # type: ignore[no-untyped-def]
+    ENV_NS.local_namespace_limit = limit
+    _RecLocals.PEAK[0] = 0
+    t = NS_T[i]
+    buf = _StringIO()
+    try:
+        ctx = SizeCtx(t, global_data=t.make_globals({"s": s, "n": n}))
+        t.render_with_context(ctx, buf)
+        res = ("ok", buf.getvalue())
+    except LocalNamespaceLimitError:
+        res = ("limit",)
+    except LiquidError:
+        res = ("other",)
+    finally:
+        ENV_NS.local_namespace_limit = None
+    return res, _RecLocals.PEAK[0]
+
+
+@cond(
+    pre=["len(s) <= 2", "in_alpha(s, 'a')", "0 <= n <= 2", "1 <= L <= 14"],
+    timeout=240,
+    shard={"i": list(range(len(NS_SRC)))},
+    covers="local_namespace_limit = L (solver variable), measured through the documented get_size_of_locals override: a render that succeeds never had a local namespace scoring more than L at any assignment - first binding, re-binding of an existing name with a larger value, capture, assignments in loops, inside rendered partials (carry) and macros - and a render whose namespace never exceeds L does not fail and renders what the unlimited environment renders",
+    bounds="8 programs; s over {a} len <= 2 (value sizes are solver variables); n in 0..2; L in 1..14; score = characters of strings + 1 per other value + carry",
+    stubs=("RenderContext subclass: get_size_of_locals overridden (documented extension point) with len() as the measure; locals dict records its peak score",),
+    grid=lambda: [(i, s, n, L) for i in range(len(NS_SRC)) for s in ("", "a", "aa") for n in (0, 1, 2) for L in (1, 2, 3, 4, 5, 6, 8, 9, 12)],
+)
+def d_namespace_limit(i: int, s: str, n: int, L: int) -> bool:
+    n = concrete_int(n, 0, 2)
+    free, _ = _ns_run(i, s, n, None)
+    res, peak = _ns_run(i, s, n, L)
+    if res[0] == "other" or free[0] != "ok":
+        return False
+    if res[0] == "ok":
+        return peak <= L and res == free
+    # the limit error is justified only if some assignment really took the namespace over L
+    _, free_peak = _ns_run(i, s, n, 10**6)
+    return free_peak > L
 
 
 # --------------------------------------------------------------------------------------------
